@@ -44,7 +44,7 @@ template <class T> static void run_T(Choice &c, Ctx &cx)
     Opts o = gen_opts(c, n, single, true, true);
     o.u = 1.0; o.refine = NOREFINE; o.condnum = false; o.pivgrowth = false;
     if (cplx && o.nr && o.trans == CONJ) o.trans = TRANS;
-    int nrhs = 1 + (int)c.below(2);
+    int nrhs; { unsigned v = c.u8(); nrhs = v >= 208 ? 0 : 1 + (int)(v % 2); }   // 0 right-hand sides is a valid base call too (quick-return paths must not skip the argument tests)
     unsigned routine = c.below(R_COUNT);
     unsigned ck = c.u8();
     cx.hash = fnv1a(c.d, c.consumed(), 0xC18ULL ^ ((uint64_t)Tr<T>::letter << 32));
@@ -73,7 +73,7 @@ template <class T> static void run_T(Choice &c, Ctx &cx)
     std::vector<R> Rs = e.Rs, Cs = e.Cs, ferr(nrhs + 1), berr(nrhs + 1);
     for (auto &v : Rs) if (!(v > 0)) v = 1; for (auto &v : Cs) if (!(v > 0)) v = 1;
     int_t lwork = 0; int_t info = -999; int iinfo = -999;
-    std::vector<T> xvec(e.B.begin(), e.B.begin() + n), yvec(n, T(1));
+    std::vector<T> xvec(n, T(1)), yvec(n, T(1)); if ((int)e.B.size() >= n) xvec.assign(e.B.begin(), e.B.begin() + n);
     R rcond = -1, rpg = -1, anorm = 1, rowcnd = 0, colcnd = 0, amax = 0;
     char norm[2] = {'1', 0}, uplo[2] = {'L', 0}, trans[2] = {'N', 0}, diag[2] = {'U', 0};
     trans_t tr = o.trans;
@@ -101,9 +101,11 @@ template <class T> static void run_T(Choice &c, Ctx &cx)
         else if (k == 10) { so.Fact = FACTORED; equed[0] = 'B'; Rs[c.below((unsigned)n)] = (R)-1; want = -7; what = "R has a negative entry with FACTORED"; }
         else if (k == 11) { so.Fact = FACTORED; equed[0] = 'C'; Cs[c.below((unsigned)n)] = 0; want = -8; what = "C has a zero with FACTORED"; }
         else if (k == 12) { lwork = -2; want = -12; what = "lwork=-2"; }
-        else if (k <= 17) { static const int bk[] = {MB_NEGCOL, MB_LDA, MB_STYPE, MB_DTYPE, MB_MTYPE}; applicable = corrupt_matrix<T>(&B, bk[k - 13], n); want = -13; what = std::string("B:") + mbname[bk[k - 13]]; }
-        else if (k <= 20) { static const int xk[] = {MB_LDA, MB_STYPE, MB_DTYPE}; applicable = corrupt_matrix<T>(&X, xk[k - 18], n); want = -14; what = std::string("X:") + mbname[xk[k - 18]]; }
-        else { X.ncol = B.ncol + 1; want = -14; what = "X.ncol != B.ncol"; }
+        // with no right-hand side the expert drivers document that B and X are not examined ("no checking if B->ncol=0"),
+        // except for a negative column count
+        else if (k <= 17) { static const int bk[] = {MB_NEGCOL, MB_LDA, MB_STYPE, MB_DTYPE, MB_MTYPE}; applicable = corrupt_matrix<T>(&B, bk[k - 13], n) && (nrhs > 0 || bk[k - 13] == MB_NEGCOL); want = -13; what = std::string("B:") + mbname[bk[k - 13]]; }
+        else if (k <= 20) { static const int xk[] = {MB_LDA, MB_STYPE, MB_DTYPE}; applicable = corrupt_matrix<T>(&X, xk[k - 18], n) && nrhs > 0; want = -14; what = std::string("X:") + mbname[xk[k - 18]]; }
+        else { X.ncol = B.ncol + 1; want = -14; what = "X.ncol != B.ncol"; applicable = nrhs > 0; }
         break; }
     case R_GSTRS: {
         int k = ck % 15;
